@@ -248,9 +248,7 @@ def run_impl(family, cases, dev=False, tag="c", timeout=3000):
         f.write("\n".join(cases) + "\n")
     p = subprocess.run([MVH_DEV if dev else MVH, "run", family, path], stdout=subprocess.PIPE,
                        stderr=subprocess.PIPE, text=True, timeout=timeout)
-    out = p.stdout.split("\n")
-    if out and out[-1] == "":
-        out.pop()
+    out = [l[3:] for l in p.stdout.split("\n") if l.startswith("@@ ")]
     if len(out) != len(cases):
         raise BuildError("harness returned %d lines for %d cases (rc=%d)\n%s" %
                          (len(out), len(cases), p.returncode, p.stderr[-2000:]))
